@@ -34,8 +34,10 @@ ALLOWED_AXIOMS = []
 LEVEL_NOTE = ('trusted: Coq kernel + vm_compute; asyncio primitives (Queue, wait_for, FIFO Semaphore, shield, Future '
     'done-callbacks, call_later, task wake-up order) are modelled in Batcher.v and validated only by the '
     'correspondence runs; harness/vloop.py, harness/batcher_drv.py, coq/theories/Case_Batcher.v (agree + monitors).  '
-    'The state-free conjuncts of the monitors (ok_basic) are proved complete and sound; full-monitor soundness is proved only for simple conjuncts (monitor_sound_partial); the other conjuncts are tied '
-    'to the theorems through agree (model trace = observed trace) on every case')
+    'The state-free conjuncts of the monitors (ok_basic) are proved complete and sound; the full monitors ok_C04 / '
+    'ok_C10 / ok_C11 are proved complete on Chain-free event lists (monitor_complete_nochain) and partially sound '
+    'model-free (monitor_sound_*); for scripts with Chain events the tie of the state-dependent conjuncts is agree '
+    '(model trace = observed trace) on every case')
 TECHNIQUE = D.TECHNIQUE
 
 run_impl = D.run_impl
